@@ -153,6 +153,7 @@ func checkC01(c *Ctx) {
 	c.Rule("C01.4", "reader(writer(header)) = header for every format 0..2, track count, metric resolution 1..32767 and the four time-code rates with any subframes", 15)
 	c.Rule("C01.5", "auto-close before serialisation: WriteTo closes every open track before the first byte is produced", 2)
 	c.Rule("C01.6", "VLQ composition: decode(encode(n)) = n in every magnitude cell (delta times and lengths)", 5)
+	c.Rule("C01.7", "delta / option plumbing: SetDelta+Write puts VLQ(delta) before the event once; NoRunningStatus selects the running-status stage; the decoded delta reaches Track.Add/Close; a multi-message Add gives the delta to the first message only", 5)
 
 	writeTo := p.Method("smf", "SMF", "WriteTo")
 	readFrom := p.Func("smf", "ReadFrom")
@@ -168,4 +169,5 @@ func checkC01(c *Ctx) {
 	ruleHeaderRead(c, "", "C01.4")
 	autoCloseBeforeWrite(c, "C01.5", writeTo)
 	ruleVLQ(c, "", "", "C01.6")
+	rulePlumbing(c, "C01.7")
 }
